@@ -136,13 +136,13 @@ def client_requests(reg):
 
 
 class _BrineProxy:
-    """stands in for `brine` inside rpyc.utils.registry: the real module, except that dumping a reply listed in
-    `fail_on` raises RecursionError (what the interpreter does for a stored port nested near its recursion limit)"""
-    def __init__(self, real, fail_on):
-        self._real, self._fail_on = real, fail_on
+    """stands in for `brine` inside rpyc.utils.registry: the real module, except that while `armed` every dump of a
+    tuple raises RecursionError (what the interpreter does for a stored port nested near its recursion limit)"""
+    def __init__(self, real):
+        self._real, self.armed = real, False
 
     def dump(self, obj):
-        if any(obj == f and type(obj) is type(f) for f in self._fail_on):
+        if self.armed and type(obj) is tuple:
             raise RecursionError("maximum recursion depth exceeded")
         return self._real.dump(obj)
 
@@ -150,28 +150,40 @@ class _BrineProxy:
         return getattr(self._real, name)
 
 
-def reply_dump_guarded(reg, magic, reqs):
-    """does the live `_work` go on after `brine.dump(reply)` raised (observed: register, a query whose reply cannot be
-    dumped, then a query that can)"""
+def dump_fault_probe(reg, magic, reqs):
+    """(is the reply's `brine.dump` guarded, does `cmd_register` refuse an address it could not send back) - observed on
+    the live `_work`: with dumping armed during a register only, is the register refused (a later query does not list
+    it); with dumping armed during a query only, does the loop go on and answer the next query"""
     from rpyc.core import brine
     regc = [c for _c, m, _mg, c, _d in reqs if m == "register"][0]
     qc = [c for _c, m, _mg, c, _d in reqs if m == "discover"][0]
-    dg = [brine.dump((magic, regc, ((PROBE_NAME,), PROBE_PORT))), brine.dump((magic, qc, (PROBE_NAME,))),
-          brine.dump((magic, qc, ("no-such-service",)))]
+    R = brine.dump((magic, regc, ((PROBE_NAME,), PROBE_PORT)))
+    Q = brine.dump((magic, qc, (PROBE_NAME,)))
     saved = reg.brine
-    reg.brine = _BrineProxy(brine, [(("10.9.9.9", PROBE_PORT),)])
+    proxy = _BrineProxy(brine)
+    reg.brine = proxy
     try:
-        r = serve(reg, dg, survive=False)
+        r1 = serve(reg, [R, Q], survive=False, on_recv=lambda i: setattr(proxy, "armed", i == 0))
+        proxy.armed = False
+        r2 = serve(reg, [R, Q, Q], survive=False, on_recv=lambda i: setattr(proxy, "armed", i == 1))
     finally:
         reg.brine = saved
-    if r is None:
-        return False
-    if r[1] is not None or r[2] != ():
-        raise Inexpressible("after a reply that cannot be dumped the registry answered %r / %r" % (r[1], r[2]))
-    return True
+    if r1 is None:
+        raise Inexpressible("a register whose address cannot be dumped ends the loop")
+    if r1[1] == ():
+        refuses = True
+    elif r1[1] == (("10.9.9.9", PROBE_PORT),):
+        refuses = False
+    else:
+        raise Inexpressible("after a register under a failing dump a query answered %r" % (r1[1],))
+    if r2 is None:
+        return False, refuses
+    if r2[1] is not None or r2[2] != (("10.9.9.9", PROBE_PORT),):
+        raise Inexpressible("after a reply that cannot be dumped the registry answered %r / %r" % (r2[1], r2[2]))
+    return True, refuses
 
 
-def serve(reg, datagrams, logger=None, survive=True):
+def serve(reg, datagrams, logger=None, survive=True, on_recv=None):
     """run the live `RegistryServer._work` over the datagrams (scripted `_recv` / `_send`); returns the reply to each
     (None = none); raises Inexpressible if the loop does not survive (unless survive=False: then returns None)"""
     from rpyc.core import brine
@@ -182,8 +194,12 @@ def serve(reg, datagrams, logger=None, survive=True):
 
         def _recv(self):
             if self.i >= len(datagrams):
+                if on_recv:
+                    on_recv(-1)
                 self.active = False
                 raise socket.timeout("done")
+            if on_recv:
+                on_recv(self.i)
             self.i += 1
             return datagrams[self.i - 1], ("10.9.9.9", 40000)
 
@@ -382,9 +398,13 @@ def gen_registry():
     L += ["", "/-- does the live `_work` survive its two `logger.warn` paths (wrong magic, unknown command) with a real",
           "logging.Logger (observed) -/",
           "def realLoggerSurvivesWarn : Bool := %s" % ("true" if real_logger_survives(reg, magic) else "false")]
+    guarded, refuses = dump_fault_probe(reg, magic, reqs)
     L += ["", "/-- is `brine.dump(reply)` guarded: does the live `_work` go on when it raises (observed with a stand-in for `brine`",
-          "in the registry's namespace whose dump of one reply raises RecursionError) -/",
-          "def replyDumpGuarded : Bool := %s" % ("true" if reply_dump_guarded(reg, magic, reqs) else "false")]
+          "in the registry's namespace whose dump raises RecursionError during one query) -/",
+          "def replyDumpGuarded : Bool := %s" % ("true" if guarded else "false"),
+          "", "/-- does `cmd_register` refuse an address that cannot be dumped, i.e. that no reply could carry (observed the same way,",
+          "the dump failing during one register) -/",
+          "def registerChecksSendable : Bool := %s" % ("true" if refuses else "false")]
     closes = tcp_recv_closes_unreplied(reg)
     L += ["", "/-- does `TCPRegistryServer._recv` close the sockets of earlier requests that got no reply (observed by running",
           "the live method over stand-in sockets) -/",
